@@ -811,7 +811,7 @@ Definition evo (P : Z -> Prop) (s s' : st) : Prop :=
     (now s <= g_t0 y /\ P (s_chan y)).
 Lemma same_id_refl x : same_id x x. Proof. repeat split. Qed.
 Lemma same_id_trans x y z : same_id x y -> same_id y z -> same_id x z.
-Proof. unfold same_id; intuition congruence. Qed.
+Proof. intros (A1 & A2 & A3 & A4 & A5) (B1 & B2 & B3 & B4 & B5). repeat split; congruence. Qed.
 Lemma evo_refl P s : evo P s s.
 Proof. intros y Hy Ay. left. exists y. repeat split; auto; lia. Qed.
 Lemma evo_trans P s s' s'' : now s <= now s' -> evo P s s' -> evo P s' s'' -> evo P s s''.
